@@ -318,6 +318,14 @@ func (mm *MinerManager) AddMiner(addr common.Address, miner *types.Miner, accoun
 		return false, msg
 	}
 
+	// a miner's stake, account and status live under sha256(id), sha256^2(id) and sha256^3(id):
+	// an id that names one of another miner's slots would overwrite it
+	if raw := accountdb.GetData(mm.getMinerDatabaseAddress(miner.Type), id); 0 != len(raw) {
+		msg := fmt.Sprintf("miner id is occupied. minerId: %s", common.ToHex(id))
+		mm.logger.Errorf(msg)
+		return false, msg
+	}
+
 	existed := mm.GetMinerIdByAccount(miner.Account, accountdb)
 	if nil != existed {
 		msg := fmt.Sprintf("miner account is existed. minerId: %s, account: %s", common.ToHex(existed), common.ToHex(miner.Account))
